@@ -172,9 +172,6 @@ package fasthttp
 //@ func wantConn.waiting
 //@   trusted
 //@   pure
-//@ func wantConn.tryDeliver
-//@   trusted
-//@   modifies w
 //@ func AcquireTimer
 //@   trusted
 //@   pure
@@ -318,3 +315,30 @@ package fasthttp
 //@     nohavoc
 //@     requires[userinfo-removed-up-to-the-last-at] forall j in [0, len(h)): h[j] != '@'
 //@   end
+
+// wantConn (C18): the hand-off cell between a waiting request and whoever frees or dials a connection. conn / err are
+// only touched under mu. A delivery succeeds at most once; cancel takes whatever was delivered out of the cell and
+// gives a delivered connection back to the pool -- it never leaves one behind (a connection left in a cancelled
+// cell is in nobody's hands: not pooled, not closed, still counted).
+//@ monitor wantConn mu
+//@   property C18
+//@   protects conn err
+
+//@ func wantConn.cancel
+//@   property C18
+//@   mode skeleton
+//@   ghost pooled int = 0
+//@   on call HostClient.ReleaseConn:
+//@     nohavoc
+//@     effect pooled = pooled + 1
+//@   end
+//@   ensures[no-connection-left-in-the-cell] w.conn == nil
+//@   ensures[a-delivered-connection-is-pooled] pooled == (atlock(w.conn) != nil ? 1 : 0)
+
+//@ func wantConn.tryDeliver results ok
+//@   property C18
+//@   mode skeleton
+//@   modifies w
+//@   frame assumed
+//@   ensures[at-most-one-delivery] atlock(w.conn != nil || w.err != nil) ==> !ok && w.conn == atlock(w.conn) && w.err == atlock(w.err)
+//@   ensures[delivered] ok ==> w.conn == conn && w.err == err
